@@ -110,7 +110,7 @@ pub fn check(c: &Case, ctx: &mut Ctx) -> Result<(), Failure> {
                 if s.is_zero() {
                     exp.push(("ppo", None, 100.0, false));
                 } else {
-                    let ppo = f.sub(s).mul_f(100.0).div(s);
+                    let ppo = f.sub(s).div(s).mul_f(100.0);
                     let cc = f.to_f64().abs().max(s.to_f64().abs()) / s.to_f64().abs();
                     cmax = cmax.max(cc);
                     let sig = e3.next(ppo);
@@ -137,7 +137,7 @@ pub fn check(c: &Case, ctx: &mut Ctx) -> Result<(), Failure> {
                     if !(den.hi > 0.0) {
                         exp.push(("mfi", None, 100.0, m.tainted));
                     } else {
-                        exp.push(("mfi", Some(Cond { val: m.pmf.mul_f(100.0).div(den), c: mfi_big.max(m.max_flow_in_window) / den.to_f64() }), 100.0, m.tainted));
+                        exp.push(("mfi", Some(Cond { val: m.pmf.div(den).mul_f(100.0), c: mfi_big.max(m.max_flow_in_window) / den.to_f64() }), 100.0, m.tainted));
                     }
                 }
             }
@@ -165,7 +165,7 @@ pub fn check(c: &Case, ctx: &mut Ctx) -> Result<(), Failure> {
                 }
                 Some(r) => r,
             };
-            if !(r.c <= CAP) {
+            if !(r.c <= CAP) || !r.val.to_f64().is_finite() {
                 ill += 1;
                 continue;
             }
@@ -251,6 +251,12 @@ fn no_mult() -> BoxedStrategy<f64> {
 /// volumes and smoothing factors are subnormal): absolute thresholds such as f64::MIN_POSITIVE,
 /// is_normal() or EPSILON hidden in a guard show up only here. CCI is left out: 0.015*MAD itself would be
 /// a coarse subnormal, so its documented formula is not evaluable to the stated tolerance there.
+/// prices in an enormous unit (1e304 .. 5e307): x*100 overflows although every documented value is an
+/// ordinary number; scalar oscillators only (money flows and typical-price sums would overflow by definition)
+fn huge_strategy() -> BoxedStrategy<Case> {
+    cfg_among(&SK, 64, no_mult).prop_flat_map(|cfg| { let n = cfg.n(); (Just(cfg), stream(Domain::Huge, 1, 4 * n + 60)) }).prop_map(|(cfg, s)| Case { cfg, scalar: true, xs: xs(&s.vals), bars: vec![], stride: 0 }).boxed()
+}
+
 const TSK: [Kind; 5] = [Kind::FastStoch, Kind::SlowStoch, Kind::Roc, Kind::Er, Kind::Ppo];
 const TBK: [Kind; 4] = [Kind::FastStoch, Kind::SlowStoch, Kind::Mfi, Kind::Obv];
 fn tiny_strategy() -> BoxedStrategy<Case> {
@@ -323,6 +329,7 @@ pub fn run(g: &mut Global) {
     g.random("random", g.tier.pick(60000, 400000), &move || strategy(1, hi, 0), &check);
     g.random("long", g.tier.pick(48, 600), &|| strategy(5000, 10000, 0), &check);
     g.random("tiny_units", g.tier.pick(8000, 60000), &tiny_strategy, &check);
+    g.random("huge_units", g.tier.pick(6000, 40000), &huge_strategy, &check);
     // ultra-long single-instance streams (see props/longrun.rs and c13::check_as)
     let lc: Vec<(Cfg, bool)> = vec![
         (Cfg { kind: Kind::Rsi, p: vec![14], m: X(0.0) }, true),
